@@ -408,7 +408,7 @@ pub fn run(e: &Engine) {
         },
     );
     if e.tier == crate::engine::Tier::Thorough {
-        crate::fuzzrun::campaign(e, "mutate_verify", 400_000, 700);
+        crate::fuzzrun::campaign(e, "mutate_verify", 200_000, 700);
     }
     for cls in ["mutation_caught_by_verify", "mutation_refused_at_open", "mutation_flips_version(checksum_missing)", "crc_via_public_api", "crc_cut_inside_16_byte_block", "built_fst_verified", "checksum_field_special_value", "crc_long_input", "corrupted_file_over_64KiB", "corrupted_file_over_16MiB"] {
         e.require_class(cls, 1);
